@@ -9,7 +9,6 @@ import json
 import os
 import random
 import re
-import subprocess
 import time
 
 import lib
@@ -79,6 +78,9 @@ def model_jobs(tier):
             AlphaSet='{"present", "absent"}', GammaSet='{"val", "oserr", "crash", "content"}',
             FileDeny='{"f_alpha", "f_b1"}', CmdDeny='{"c_pre"}'))),
         ("pool1", "CollectRunMC", "CollectRunMC_pool1.cfg"),
+        # action coverage (-coverage 1 is slow) is measured on two tiny configurations: pool1 and this one
+        ("cov", "CollectRun", subst_cfg("CollectRunMC_sched.cfg", "cov.cfg", PersistPreset='"all"', FileDeny="{}", CompDeny="{}",
+                                        MaxDeny="0", GammaSet='{"val"}', AlphaSet='{"present"}', drop=noemit)),
         # the invariants can fail: transcriptions of the code as it is / of plausible slips violate them
         ("neg-configs", "CollectRun", subst_cfg("CollectRunMC_enable.cfg", "negc.cfg", CfgMode='"code"', MaxCfg="1",
                                                 PreSet='{"none"}', drop=noemit)),
@@ -90,7 +92,7 @@ def model_jobs(tier):
 
 
 EXPECT_NEG = {"neg-configs": "EnabledIsLastMatch", "neg-persist": "PersistSetIsLastMatch", "neg-persister": "PersistExact"}
-COVERED = ("enable", "sched")
+COVERED = ("pool1", "cov")
 
 
 def run_models(tier):
@@ -118,7 +120,7 @@ def run_models(tier):
 
 
 # how many of the emitted manifests of each configuration are run for real
-BUDGET = {"quick": dict(enable=330, persist=280, deny=300, mix=260, sched=24, pool1=3, raw=6),
+BUDGET = {"quick": dict(enable=300, persist=220, deny=260, mix=220, sched=24, pool1=3, raw=6),
           "thorough": dict(enable=6000, persist=5000, deny=4320, mix=6000, sched=400, pool1=3, raw=40)}
 
 
@@ -130,7 +132,7 @@ def pick_cases(emitted, tier, rng):
         rest = [l for l in lines if '\\"universe\\"' not in l]
         if uni and universe is None:
             universe = lib.parse_case(uni[0])
-        n = min(BUDGET[tier][name], len(rest))
+        n = min(BUDGET[tier].get(name, 0), len(rest))
         for i, l in enumerate(rng.sample(rest, n)):
             c = lib.parse_case(l)
             c.pop("t", None)
@@ -148,37 +150,13 @@ def pick_cases(emitted, tier, rng):
     return universe, cases
 
 
-def run_killable(universe, case, timeout):
-    """A case whose outcome may be 'collect() never returns': own child, short timeout, the events recorded so far
-    are read from the progress file the driver rewrites after every event (R7: the timeout IS the observation)."""
-    d = lib.subdir("x01-hang")
-    tag = case["id"].replace("/", "-")
-    inp, outp, prog = (os.path.join(d, tag + x) for x in (".in.json", ".out.json", ".progress.json"))
-    with open(inp, "w") as f:
-        json.dump(dict(base=os.path.join(lib.subdir("x01fs"), "hang-" + tag), seed=lib.seed(), universe=universe,
-                       cases=[case], progress=prog), f)
-    env = dict(os.environ)
-    env["PYTHONPATH"] = lib.REPO + os.pathsep + os.path.join(lib.VERIF, "harness")
-    env["PYTHONHASHSEED"] = "0"
-    env["PYTHONDONTWRITEBYTECODE"] = "1"
-    try:
-        p = subprocess.run([lib.PY, os.path.join(lib.VERIF, "harness", "drive_collectrun.py"), inp, outp], env=env,
-                           stdin=subprocess.DEVNULL, stdout=subprocess.PIPE, stderr=subprocess.STDOUT,
-                           universal_newlines=True, timeout=timeout, cwd=lib.scratch())
-    except subprocess.TimeoutExpired:
-        events = []
-        if os.path.exists(prog):
-            with open(prog) as f:
-                events = json.load(f)
-        traces = split_events(case, events + [dict(ev="hung", after_s=timeout)], sorted(universe["names"]))
-        for t in traces:                      # the killed part carries no "end" event of its own
-            if any(e["ev"] == "hung" for e in t["events"]):
-                t["events"] = [e for e in t["events"] if e["ev"] != "end"]
-        return dict(traces=traces, stats=dict(cases=1, hung=1), r4=[])
-    if p.returncode != 0 or not os.path.exists(outp):
-        raise lib.MachineryError("driver drive_collectrun.py failed on %s (rc=%s):\n%s" % (case["id"], p.returncode, p.stdout[-3000:]))
-    with open(outp) as f:
-        return json.load(f)
+def run_alone(universe, case, timeout=240):
+    """A case whose outcome may be 'collect() never returns' runs in a child of its own: the driver's watchdog
+    turns quiescence into a recorded 'hung' event and ends the process (R7: there the hang IS the observation);
+    the outer timeout only guards the machinery."""
+    return lib.run_driver("drive_collectrun.py",
+                          dict(base=os.path.join(lib.subdir("x01fs"), "alone-" + case["id"].replace("/", "-")),
+                               seed=lib.seed(), universe=universe, cases=[case]), timeout=timeout)
 
 
 def run_drivers(universe, cases, tier, jobs):
@@ -188,10 +166,10 @@ def run_drivers(universe, cases, tier, jobs):
     payloads = []
     for i in range(0, len(normal), per):
         payloads.append(dict(base=os.path.join(lib.subdir("x01fs"), "p%d" % (i // per)), seed=lib.seed() * 100003 + i,
-                             universe=universe, cases=normal[i:i + per], progress=""))
+                             universe=universe, cases=normal[i:i + per]))
     outs = []
     with concurrent.futures.ThreadPoolExecutor(max_workers=max(1, len(hang))) as ex:
-        futs = [ex.submit(run_killable, universe, c, 20) for c in hang]
+        futs = [ex.submit(run_alone, universe, c) for c in hang]
         outs.extend(lib.run_driver_parallel("drive_collectrun.py", payloads, hashseeds=[0, 1, 2, 3, 5, 7, 11], timeout=1500,
                                             jobs=jobs))
         outs.extend(f.result() for f in futs)
@@ -236,6 +214,7 @@ def run(prop, tier):
     nev = sum(len(t["events"]) for t in traces)
     print("timing: drivers %.1fs, %d executions of collect(), %d traces, %d events; %s"
           % (time.time() - t1, stats.get("cases", 0), len(traces), nev, stats))
+    vacuous = []
     for what, ok in (("collect() wrote metadata documents", stats.get("docs", 0) > 0),
                      ("collect() wrote data files", stats.get("datafiles", 0) > 0),
                      ("archives were loaded back with content", stats.get("loaded", 0) > 0),
@@ -245,7 +224,7 @@ def run(prop, tier):
                      ("the pooled run_all was used", stats.get("pooled", 0) > 0),
                      ("every selected manifest was executed", stats.get("cases", 0) == len(cases))):
         if not ok:
-            raise lib.MachineryError("vacuity: never observed that %s (%s)" % (what, stats))
+            vacuous.append(what)
 
     t1 = time.time()
     mutants = selftest_traces(universe)
@@ -269,6 +248,9 @@ def run(prop, tier):
     if need != mut_rejected:
         raise lib.MachineryError("binding self-test: expected rejections %s, got %s" % (sorted(need - mut_rejected),
                                                                                          sorted(mut_rejected - need)))
+
+    if vacuous and not verdict.violations:      # with violations at hand the verdict stands; otherwise the run proves nothing
+        raise lib.MachineryError("vacuity: never observed that %s (%s)" % ("; ".join(vacuous), stats))
 
     distinct = set()
     for t in traces:
@@ -356,8 +338,16 @@ def selftest_traces(U):
     variant("no-value", "RunExact", "run", lambda e: e[nrun["IB"]].update(has=False))
     variant("order", "RunOrder", "run", lambda e: e.insert(0, e.pop(nrun["PA"])))
     variant("twice", "RunOnce", "run", lambda e: e.insert(1, dict(e[0])))
-    variant("lost", "RunComplete", "run", lambda e: e.pop(nrun[U["canon"][-1]]))
-    variant("interleaved", "RunOrder", "run", lambda e: e.pop(nrun["PB"]))
+    variant("idle-component-not-attempted", "accepted", "run", lambda e: e.pop(nrun["PO"]))      # no observable effect
+
+    def lose(e):
+        e[nrun["finish"]]["docs"] = [d for d in e[nrun["finish"]]["docs"] if d["c"] != "PB"]
+        e[nrun["finish"]]["data"] = [d for d in e[nrun["finish"]]["data"] if "/b/" not in d["path"]]
+        e[nrun["load"]]["loaded"] = [d for d in e[nrun["load"]]["loaded"] if d["c"] != "PB"]
+        e.pop(nrun["PB"])
+        e.pop(nrun["IB"])
+    variant("lost", "PersistExact", "run", lose)
+    variant("body-lost", "RunExact", "run", lambda e: e[nrun["ran"]]["bodies"].remove("IG"))
     variant("dehydrated", "PersistExact", "run", lambda e: e[nrun["IA"]].update(pers=True))
     variant("error", "ErrorsRecorded", "run", lambda e: e[nrun["IG"]].update(errs=["crash"]))
     variant("body", "DisabledNeverRuns", "run", lambda e: e[nrun["ran"]]["bodies"].append("IO"))
@@ -391,7 +381,7 @@ def replay(prop, path):
     lib.require_ok(models, "CollectRun model pool1")
     universe = [lib.parse_case(l) for l in models.cases if '\\"universe\\"' in l][0]
     case = dict(case, id="replay", hang=False)
-    out = run_killable(universe, case, 60)
+    out = run_alone(universe, dict(case, hang=True))
     if out["r4"]:
         raise lib.MachineryError("R4: %s" % out["r4"][:5])
     val = lib.validate_traces("CollectRunTrace", "CollectRunTrace.cfg", out["traces"], jobs=1)
